@@ -214,6 +214,23 @@ class Src:
         return w, r
 
 
+def taylor_order_restored(s):
+    """addhdf5 writes attrs['order'] and loadhdf5 reads it"""
+    def has(fn, store):
+        for n in ast.walk(fn):
+            if isinstance(n, ast.Subscript) and isinstance(n.slice, ast.Constant) and n.slice.value == 'order' \
+                    and isinstance(n.value, ast.Attribute) and n.value.attr == 'attrs' and isinstance(n.ctx, ast.Store) == store:
+                return True
+            if not store and isinstance(n, ast.Call) and isinstance(n.func, ast.Attribute) and n.func.attr == 'get' \
+                    and isinstance(n.func.value, ast.Attribute) and n.func.value.attr == 'attrs' \
+                    and n.args and isinstance(n.args[0], ast.Constant) and n.args[0].value == 'order':
+                return True
+        return False
+    m = s.methods['Taylor3D']
+    load_sorts = any(isinstance(n, ast.Call) and isinstance(n.func, ast.Name) and n.func.id == 'sorted' for n in ast.walk(m['loadhdf5']))
+    return has(m['addhdf5'], True) and has(m['loadhdf5'], False) and load_sorts
+
+
 def facts(repo):
     s = Src(repo)
     F = {}
@@ -222,6 +239,7 @@ def facts(repo):
                     write=sorted(s.load_writes(c)), loops=s.save_loop_symmetric(c))
         w, r = s.datasets(c)
         F[c]['ds_written'], F[c]['ds_read'] = sorted(w), sorted(r)
+    F['Taylor3D']['order_restored'] = taylor_order_restored(s)
     return F
 
 
